@@ -626,9 +626,10 @@ class Engine:
         if t == 'isize::MAX':
             return ISIZE_MIN - 1
         if t.startswith('"') or t.startswith('b"'):
-            if getattr(self, '_static_str', None) is None:
-                self._static_str = self.new_obj('static', Opaque('str'))
-            return Ptr(self._static_str)
+            cache = self.__dict__.setdefault('_static_strs', {})
+            if t not in cache:
+                cache[t] = self.new_obj('static', Opaque('str:' + t.strip('b').strip('"')))
+            return Ptr(cache[t])
         if re.match(r'^<.* as core::mem::SizedTypeProperties>::(ALIGN|SIZE|IS_ZST)$', t):
             # layout constants of the debug-assertion pointer checks: opaque, every pointer the model hands out is aligned
             return Opaque('layout:' + t.rsplit('::', 1)[1])
